@@ -71,6 +71,10 @@ SeenOf(e) == {e.a}
   \cup (IF e.a = "Detect" /\ Cardinality(Allowed(C(e.obj), registry, EntryPoints)) > 1 THEN {"builtin-tie"} ELSE {})
   \cup (IF e.a = "Detect" /\ e.obs.cls \in Extra THEN {"manual-wins"} ELSE {})
   \cup (IF e.a = "Detect" /\ e.obs.cls = "None" THEN {"nothing-matches"} ELSE {})
+  \* a built-in class registered by hand decides a tie between built-ins
+  \cup (IF e.a = "Detect" /\ Cardinality(TopClasses(C(e.obj), registry, EntryPoints)) > 1
+           /\ RegisteredTop(C(e.obj), registry, EntryPoints) # <<>>
+           /\ RegisteredTop(C(e.obj), registry, EntryPoints)[1] \in Builtins THEN {"builtin-registered"} ELSE {})
   \cup (IF e.a = "Detect" THEN {"detected-" \o e.obs.cls} ELSE {})
   \cup (IF e.a = "Access" /\ cached[e.obj] # 0 THEN {"access-cached"} ELSE {})
   \cup (IF e.a = "Access" /\ cached[e.obj] = 0 /\ bound[e.obj] # 0 THEN {"access-after-manual-bind"} ELSE {})
